@@ -42,7 +42,7 @@ let () =
   let compare = Array.exists (fun a -> a = "--compare-unreduced") Sys.argv in
   let fuel_n = nat_of_int fuel in
   let cases = ref 0 and specfail = ref 0 and mismatch = ref 0 and accepted = ref 0 and fuel_out = ref 0
-  and monitor_only = ref 0 and max_belief = ref 0 and events = ref 0 and malformed = ref 0 and redux_diff = ref 0
+  and monitor_only = ref 0 and max_belief = ref 0 and events = ref 0 and malformed = ref 0 and redux_diff = ref 0 and both_rej = ref 0
   and sum_belief = ref 0 in
   iter_lines Sys.argv.(1) (fun line ->
     match split_ws line with
@@ -54,12 +54,24 @@ let () =
           events := !events + List.length evl;
           let nn = nat_of_int n and qn = nat_of_int q in
           let m = run_monitors nn qn evl in
+          if compare && tag <> "M" && monitors_ok m then begin
+            let a = accept_history nn qn fuel_n true evl and b = accept_history nn qn fuel_n false evl in
+            let cls = function Accepted _ -> 0 | Rejected _ -> 1 | FuelOut _ -> 2 in
+            let idx = function Rejected (i, _) -> int_of_nat i | _ -> -1 in
+            if cls a = 1 && cls b = 1 then incr both_rej;
+            if cls a <> 2 && cls b <> 2 && (cls a <> cls b || idx a <> idx b) then begin incr redux_diff; Printf.printf "REDUXDIFF %d/%d %d/%d %s\n" (cls a) (idx a) (cls b) (idx b) line end
+          end;
           if not (monitors_ok m) then begin
             incr specfail;
             Printf.printf "SPECFAIL %s ## monitors=%s\nDRIFT %s\n" line (failing m) line end
           else if tag = "M" then incr monitor_only
           else begin
-            (match accept_history nn qn fuel_n true evl with
+            let t0 = Sys.time () in
+            let res = accept_history nn qn fuel_n true evl in
+            if Sys.getenv_opt "TL_TIMES" <> None then
+              Printf.printf "TIME %.1f %s %d %d %d %s\n" ((Sys.time () -. t0) *. 1000.) tag n q (List.length evl)
+                (match res with Accepted mb -> "acc:" ^ string_of_int (int_of_nat mb) | Rejected _ -> "rej" | FuelOut i -> "fuel@" ^ string_of_int (int_of_nat i));
+            (match res with
              | Accepted mb -> incr accepted; let mb = int_of_nat mb in sum_belief := !sum_belief + mb; if mb > !max_belief then max_belief := mb
              | Rejected (idx, mb) ->
                  incr mismatch;
@@ -67,11 +79,6 @@ let () =
                  Printf.printf "MISMATCH %s ## model-rejects-at-event=%d(%s) belief=%d\nDRIFT %s\n" line i (List.nth evs i) (int_of_nat mb) line
              | FuelOut idx -> incr fuel_out;
                  Printf.printf "FUEL %d %s\n" (int_of_nat idx) line);
-            if compare then begin
-              let a = accept_history nn qn fuel_n true evl and b = accept_history nn qn fuel_n false evl in
-              let cls = function Accepted _ -> 0 | Rejected _ -> 1 | FuelOut _ -> 2 in
-              if cls a <> 2 && cls b <> 2 && cls a <> cls b then begin incr redux_diff; Printf.printf "REDUXDIFF %s\n" line end
-            end
           end
         with Bad tok ->
           (* a token outside the format (e.g. a negative PendingTask): the implementation's output is not a legal observation *)
@@ -82,4 +89,4 @@ let () =
     Printf.printf "MISMATCH (no history could be decided by the acceptor: %d ran out of fuel)\n" !fuel_out;
   Printf.printf "STATS cases=%d specfail=%d mismatch=%d drift=0 accepted=%d fuel_exhausted=%d monitor_only=%d max_belief=%d avg_belief=%d events=%d malformed=%d%s\n"
     !cases !specfail !mismatch !accepted !fuel_out !monitor_only !max_belief (if !accepted > 0 then !sum_belief / !accepted else 0) !events !malformed
-    (if compare then Printf.sprintf " reduction_disagreements=%d" !redux_diff else "")
+    (if compare then Printf.sprintf " reduction_disagreements=%d both_rejected=%d" !redux_diff !both_rej else "")
